@@ -22,7 +22,10 @@ JPS = ["JSplitterReset", "JOfind", "JRunAstNodes", "JCompile", "JTime", "JTimeit
 NAME_ID = {"b64decode": 1, "zzmod_ok": 2, "badname": 3, "zz_unknown": 4}
 EXC_ID = {"AttributeError": 1, "AssertionError": 2, "ValueError": 10, "OSError": 11, "KeyError": 12, "ImportError": 13,
           "RuntimeError": 14, "TypeError": 15, "ZeroDivisionError": 16, "CustomError": 17, "MemoryError": 18,
-          "RecursionError": 19, "NameError": 20}
+          "RecursionError": 19, "NameError": 20, "StrRaises": 21, "ReprRaises": 22, "UnprintableArgs": 23,
+          "NeedsArgs": 24, "OSErrorErrno": 11, "UnicodeDecodeError": 26, "StrFailure": 27, "IsADirectoryError": 28,
+          "FileNotFoundError": 29}
+REAL_CLASS = {"OSErrorErrno": "OSError"}      # harness names of exception *objects* -> their class
 BASE_ID = {"KeyboardInterrupt": 1, "SystemExit": 2, "GeneratorExit": 3, "CustomBase": 4}
 ACTS = {"run": "ARunCell", "inspect": "AInspect", "cglobal": "ACompleteGlobal", "cattr": "ACompleteAttr",
         "runfile": "ARunFile", "prun": "APrun", "debugstmt": "ADebugStmt"}
@@ -154,14 +157,28 @@ def c_io(e, variant):
 NXT = 1000
 
 
+def with_natural(o, ent):
+    """%run: what pyflyby's own (unarmed) read / parse of the script raised on this very run is an oracle
+    argument of the model - a fault at SParse; raised while constructing the PythonBlock it precedes an
+    armed SParse stub (which sits in ast_node), otherwise it follows it"""
+    nat = (ent.get("cell") or {}).get("natural_parse")
+    if o.get("op") != "cell" or not nat:
+        return o
+    o = dict(o)
+    f = [["SParse", nat[0]]]
+    o["faults"] = (f + list(o.get("faults", []))) if nat[1] == "construct" else (list(o.get("faults", [])) + f)
+    return o
+
+
 def model_expr(case, impl, variant):
     s0 = impl["trace"][0]["snap"]
+    ops = [with_natural(o, ent) for o, ent in zip(case["ops"], impl["trace"][1:])]
     slots = cm.clist([cm.cpair(j, c_val(v)) for j, v in zip(JPS, s0["slots"]) if v != "U"])
     return "run_session %s %s %s %s %s %s %s %s" % (
         c_env(impl["env"], variant), c_io(impl["env"], variant), slots,
         cm.clist([cm.cN(x) for x in s0["ast"]]), cm.clist([cm.cN(x) for x in s0["cleanup"]]),
         cm.clist([cm.cN(x) for x in s0["line"]]), cm.cN(NXT),
-        cm.clist([c_sop(o, case.get("bad_exc", "ValueError")) for o in case["ops"]]))
+        cm.clist([c_sop(o, case.get("bad_exc", "ValueError")) for o in ops]))
 
 
 # ---------------------------------------------------------------------------------------------
@@ -217,7 +234,7 @@ def canon_impl(impl, case=None):
             esc = c.get("escaped")
             if esc is None and o is not None and c.get("error") is not None:
                 # run_cell reports an exception that left a hook as the cell's error
-                injected = {e for _, e in o.get("faults", [])} | ({case.get("bad_exc")} if case else set())
+                injected = {REAL_CLASS.get(e, e) for _, e in o.get("faults", [])} | ({case.get("bad_exc")} if case else set()) | {"StrFailure"}
                 if c["error"] in injected and c["error"] != "NameError":
                     esc = c["error"]
             co = {"path": c["pf_calls"] > 0, "escaped": esc}
@@ -403,12 +420,28 @@ def evaluate(ctx, cases, results):
     ctx.notes["model_evaluations_in_kernel"] = len(exprs)
 
 
+ANCHORS = ["pyflyby._util:Aspect.__init__", "pyflyby._util:Aspect.advise", "pyflyby._util:Aspect.unadvise",
+           "pyflyby._interactive:AutoImporter.enable", "pyflyby._interactive:AutoImporter._enable_internal",
+           "pyflyby._interactive:AutoImporter._enable_initializer_hooks", "pyflyby._interactive:AutoImporter._enable_kernel_manager_hook",
+           "pyflyby._interactive:AutoImporter._enable_shell_hooks", "pyflyby._interactive:AutoImporter._enable_reset_hook",
+           "pyflyby._interactive:AutoImporter._enable_ofind_hook", "pyflyby._interactive:AutoImporter._enable_ast_hook",
+           "pyflyby._interactive:AutoImporter._enable_time_hook", "pyflyby._interactive:AutoImporter._enable_timeit_hook",
+           "pyflyby._interactive:AutoImporter._enable_prun_hook", "pyflyby._interactive:AutoImporter._enable_completer_hooks",
+           "pyflyby._interactive:AutoImporter._enable_completion_hook", "pyflyby._interactive:AutoImporter._enable_run_hook",
+           "pyflyby._interactive:AutoImporter._enable_debugger_hook", "pyflyby._interactive:AutoImporter.disable",
+           "pyflyby._interactive:AutoImporter._safe_call", "pyflyby._interactive:AutoImporter._advise",
+           "pyflyby._interactive:AutoImporter.reset_state_new_cell", "pyflyby._interactive:enable_auto_importer",
+           "pyflyby._interactive:disable_auto_importer", "pyflyby._interactive:load_ipython_extension",
+           "pyflyby._interactive:unload_ipython_extension"]
+
+
 def run(ctx):
-    n = 60 if ctx.quick else 400
+    cm.check_anchors(ctx, ANCHORS)
+    n = (150 if ctx.quick else 400) * ctx.scale
     ctx.coverage["rule"] = ("operation sequences of length 1-6 over {Enable, EnableAgain, Disable, LoadExt, UnloadExt, ReloadExt, "
                             "LoadFn, UnloadFn, run-cell, complete} + a final Disable, one fresh real shell per sequence, "
                             "10% under the jedi completer, 4% at PYFLYBY_LOG_LEVEL=DEBUG; thorough adds every sequence of "
-                            "length <= 3 over the eight operations; non-trivial = the sequence reached ENABLED")
+                            "length <= 3 (<= 4 with 12 or more jobs) over the eight operations; non-trivial = the sequence reached ENABLED")
     ctx.assumptions += [
         "IPython 9.17 itself (ExtensionManager bookkeeping, which hook lists run_cell consults) is modelled, not verified",
         "the set of joinpoints the shell offers is probed with hasattr on the very shell driven (env record of the model)",
@@ -418,7 +451,8 @@ def run(ctx):
     ctx.notes["trusted_base"] = ["IPython 9.17.1 as the environment of the hooks (modelled, not verified)"]
     cases = cm.load_corpus("C14") + gen_cases(ctx, n)
     if not ctx.quick:
-        cases += gen_exhaustive(3)
+        # every sequence of length <= 3 (584); of length <= 4 (4680, ~12 min) when there are cores for it
+        cases += gen_exhaustive(4 if cm.NCPU >= 12 else 3)
     results = cm.run_impl("c14", "impl_case", cases, timeout_case=300)
     evaluate(ctx, cases, results)
 
